@@ -131,6 +131,11 @@ MUTANTS = [
       "wrong graph (line 7): the order of G[S'] instead of G, so the conditionals of the carried product lose the predecessors outside S' "
       "(napkin: P(x | w) instead of P(x | w, r)); added after round 1"),
 
+    M("i36", "id", IDS, "    return Sum.safe(estimand, ordering[index + 1 :]) / Sum.safe(estimand, ordering[index:])\n",
+      "    return Sum.safe(estimand, ordering[index + 1 :]) / Sum.safe(estimand, ordering[index : index + 2])\n", ["C01"],
+      "off by one / truncated range in the denominator of the conditional read off a carried estimand: only the child and the NEXT variable are summed out, "
+      "wrong when at least two variables follow the child (needs a carried estimand over >= 3 variables with the child at position <= n-3); added after round 1", run=["C01"]),
+
     # =============================================================== graph.py helpers used only by ID
     M("g01", "graph", GR, "        return self.remove_in_edges(interventions).ancestors_inclusive(outcomes)\n",
       "        return self.ancestors_inclusive(outcomes)\n", ["C02"],
@@ -172,8 +177,10 @@ MUTANTS = [
     M("u08", "utils", UT, "        conditions = {parent.get_base() for parent in query.parents}\n", "        conditions = set()\n", ["C03"],
       "Query.from_expression forgets the conditions: an Identification built from P[X](Y | Z) is identified as P[X](Y)", run=["C03"]),
     M("u09", "utils", UT, "            treatments = {intervention.get_base() for intervention in first_child.interventions}\n",
-      "            treatments = set(first_child.interventions)\n", ["C01", "C02"],
-      "Query.from_expression keeps the Intervention objects: they are not nodes of the graph, every treatment is ignored", run=["C01", "C02"]),
+      "            treatments = set(first_child.interventions)\n", ["C02"],
+      "Query.from_expression keeps the Intervention objects: Query.__init__ -> _ensure_set rejects them with TypeError, so every Identification built from "
+      "P[X](Y) / P(Y @ X) fails in another way (and `import y0.examples`, which builds such objects, raises).  No estimand is returned, so C01 is not broken "
+      "(first classified as 'treatments silently ignored', breaking C01 too)", run=["C01", "C02"]),
     M("u10", "utils", UT, "        self.graph = str_nodes_to_variable_nodes(graph)\n", "        self.graph = graph\n", EQ,
       "missing copy of the graph (aliasing): no operation of ID / IDC mutates a graph, every surgery builds a new one", run=["C02", "C03"]),
     M("u14", "utils", UT, "        outcomes = {child.get_base() for child in query.children}  # clean counterfactuals\n",
@@ -270,11 +277,64 @@ MUTANTS = [
       "stale variable in the recursive call: A is handed over as the district together with Q[T'] (TypeError when G_A has several districts); added after round 1"),
     M("t31", "tian", TI, "    ordered_ancestral_set = [a for a in topo if a in ancestral_set]\n", "    ordered_ancestral_set = [a for a in topo if a in input_variables]\n", ["C17"],
       "stale variable: G_C instead of G_A in the recursive branch, so T' = C and Lemma 1 / Lemma 4 are applied to C as if it were a district of G_A; added after round 1"),
+    M("t32", "tian", TI, "    ranges = topo[topo.index(vertex) + 1 :]\n", "    ranges = topo[topo.index(vertex) + 1 :][:2]\n", ["C17"],
+      "truncated range in Eq. 72: at most two later variables are summed out (needs a Lemma-4 form over >= 4 variables with the vertex at position <= n-4); added after round 1"),
 ]
 
-FIXES = """## What the campaign changed in the checks
+FIXES = """## Narrative
 
-(filled in after round 1)
+**Round 1** (65 mutants, 100 check runs, plain quick tier, seed 0, harness as of e0ce07f).  Every property-breaking mutant was reported with a
+`VIOLATION` line and a concrete replay by the check of each property it breaks, except two -- both of which the pinned suite kills:
+
+* **u09** (C01, C02; `Query.from_expression` keeps the `Intervention` objects): *exit 1 without any VIOLATION line.*  `y0.examples` builds
+  `Identification.from_expression(...)` objects at import time, the mutant makes that raise `TypeError`, and the checks of C01 / C02 import
+  `y0.examples` for their corpus while *generating* the cases -- a traceback before the first case ran.  Suite: kills (166 tests).
+* **g03** (C02; `get_no_effect_on_outcomes` forgets to subtract X, line 3 then re-adds a treatment for ever): *timeout (> 700 s).*  The oracle
+  does classify `RecursionError` as a failure, but every failing input costs Python's full 1000 frames with ~5 graph rebuilds per frame, and
+  shrinking repeats that for up to 8 x 300 candidates.  Suite: kills (19 tests).
+
+Independently of the mutants, the coordinator handed over two seeded changes of `are_d_separated` (anchored for C03 too) that `./check C03`
+MISSED in both tiers (0 disagreements) while C04 caught them:
+
+* **seed C03c**: parents of DIFFERENT members of one district are no longer joined;  **seed C04c**: the clique of a fully conditioned district is
+  skipped.  Both report `a -> c1 <-> c2 <- b` given `{c1, c2}` as separated.  For IDC the smallest trigger has 5 nodes and THREE conditions
+  (`Z <- A -> C1 <-> C2 <- Y`, query `P(Y | Z, C1, C2)`): rule 2 is wrongly accepted for `Z` and the estimand is `P(y | c1, c2)`.  The C03
+  stream had 1-2 conditions per random query and the `collider_family` stream a single opened collider.
+
+**Changes to the checks** (files: `harness/props/c03.py`, `corpus/C03/c03c_collider_chain.json`, `harness/oracles/id_run.py`):
+
+* **C03, `collider_chain_family`** (220 cases per quick run, 1 500 thorough, appended at the END of the stream so that the earlier cases of a seed are
+  unchanged): `Z (<- A -> | <-> A ->) C1 <-> C2 (<-> C3) (<- Y | <- B <- Y | <- B -> Y | <- B <-> Y)`, every `Ci` a condition (3-4 conditions, 5-7 nodes),
+  optional treatment `X` (parent of `Y`, `A` or `B`), optional `Z -> Y`, optional extra bidirected edge `A <-> C1` / `C1 <-> C3`, a control variant in which
+  the last chain member is opened by a conditioned child instead, random relabelling, both entry points; plus the two demo inputs of the seeds as
+  corpus entries.  On the unchanged tree all 220 cases return an estimand with 0 exchanges; under either seed 193 of 220 fail the exact-SCM oracle.
+  Cost: 6 s of single-process time (about 1 s of wall with 8 processes).
+* **ID family (C01, C02, C03, C06), non-termination guard** in `id_run.run_identify`: the recursion limit is lowered to *this frame + 100 + 10 per
+  node* for the duration of the call (measured on 2 750 cases: the real recursion never goes deeper than 26 Python frames below `run_identify` for graphs
+  with up to 8 nodes) and restored afterwards.  A run-away recursion is still reported as `RecursionError ... on a valid query`, 6-7 times cheaper.
+* **ID family, `example_corpus`**: an exception while importing `y0.examples` no longer aborts the check; the corpus part is skipped with a `NOTE:` line
+  and the generated stream -- which drives `Identification.from_expression` inside `run_identify`'s `try` -- names the failing input.
+
+**Round 2** (71 mutants: i35, u15, c13, c14, t27, t31 were added after round 1 to probe shapes round 1 had not asked for -- predecessors outside S' at
+line 7, a collider opened by ANOTHER condition, two conditions with one exchange, depth >= 1 IDENTIFY recursions with T' != C).  Re-run after the
+changes: the two misses, the six new mutants, and every C03 run (the C03 stream changed); the C01 / C02 / C17 rows of the other mutants are the
+round-1 runs (their checks changed only by the recursion guard, and C01 / C02 / C03 / C06 were re-run on the unchanged tree: exit 0, no VIOLATION line,
+seeds 0, 1, 2 (C06: seed 0)).
+
+Seeded changes (plain quick tier of C03, `VERIF_NO_ESCALATE=1`, and as registered):
+
+| seed | C03 before | C03 after (plain) | C03 after (as registered) |
+|---|---|---|---|
+@@SEEDROWS@@
+
+Initial guesses revised after the runs (the `why` column has the argument): **i03** was classified equivalent ("the same up to a nested sum") and is
+not -- a sum over a variable that is no longer free multiplies by its cardinality; C01 and C03 report it with replays.  **g04** breaks C02 only (line 4
+fires less often, never wrongly).  **t05** is equivalent (Lemma 1 never reads the list of children of the probability it is given; 0 disagreements with
+the model in 20 480 cases).  **c02** (rule 2 without the treatments in the conditioning set) and **c03 / c04 / c06** only make rule 2 apply LESS often,
+which C03 allows (no completeness clause): the check reports a correspondence disagreement and finds no failing input, as it should.
+**g02** differs from the original only when X and Y overlap (outside the quantifier; 53 disagreements in C02's malformed stream).
+
+No mutant revealed a defect of the unchanged y0.
 """.split("\n")
 
 
